@@ -63,6 +63,10 @@ def _create_or_update_state(first_key: str, second_key: str, hash_: str) -> None
 
 def update_states_in_database(session: Session, task_signature: str) -> None:
     """Update the state for each node of a task in the database."""
+    # A dry-run must not record anything; otherwise a persisted task would be treated
+    # differently by the next build.
+    if session.config.get("dry_run"):
+        return
     for name in node_and_neighbors(session.dag, task_signature):
         node = session.dag.nodes[name].get("task") or session.dag.nodes[name]["node"]
         hash_ = node.state()
